@@ -5,6 +5,9 @@ Import ListNotations.
 From V Require Import Model.Align Proofs.AlignValid Proofs.AlignProofs.
 From V Require Import Model.SnapOps Model.TreeAssign Proofs.TreeAssignProofs.
 From V Require Import Proofs.TreeAssignConfluence.
+From Coq Require Import ZArith.
+From V Require Import Model.SeqAssign Model.DictAssign Proofs.DictAssignProofs.
+Close Scope Z_scope.
 
 (* the script computed for (old, new) is a valid edit script: it consumes both sequences exactly and
    marks `m` only on equal pairs, for an arbitrary (not necessarily transitive or symmetric) == *)
@@ -69,6 +72,15 @@ Theorem C11_tree_prefix_verbatim :
   verbatim_list (firstn c items) = Some (firstn c olds).
 Proof. exact tree_prefix_verbatim. Qed.
 
+(* dict entries are matched by key: an equal entry under a surviving key keeps its source text, wherever other entries are inserted or deleted *)
+Theorem C11_dict_equal_entry_verbatim :
+  forall (F : flags) (olds : list entry) (news : list (Z * Z)) (e : entry),
+  f_update F = false ->
+  In e olds ->
+  lookup_new (e_key e) news = Some (l_val (e_leaf e)) ->
+  In (DKeep (e_key e) (e_leaf e)) (dict_result F olds news).
+Proof. exact dict_equal_entry_verbatim. Qed.
+
 Print Assumptions C11_align_valid.
 Print Assumptions C11_add_x_valid.
 Print Assumptions C11_align_prefix_m.
@@ -81,3 +93,4 @@ Print Assumptions C11_align_no_i_then_d.
 Print Assumptions C11_tree_equal_keeps_text.
 Print Assumptions C11_tree_noflags_identity.
 Print Assumptions C11_tree_prefix_verbatim.
+Print Assumptions C11_dict_equal_entry_verbatim.
